@@ -50,6 +50,8 @@ FUNCTIONS = [
     ('filter_process', 'dataflows.processors.filter_rows', ['process_resource']),
     ('deduper', 'dataflows.processors.deduplicate', ['deduper']),
     ('unpivot_rows', 'dataflows.processors.unpivot', ['unpivot_rows']),
+    # delete_fields: which schema fields stay (the package phase's loop over the fields of a selected resource)
+    ('delete_schema_loop', 'dataflows.processors.delete_fields', ['delete_fields', 'func', '@for:0', '@if:0', '@for:0']),
     ('concatenator', 'dataflows.processors.concatenate', ['concatenator']),
     ('delete_process', 'dataflows.processors.delete_fields', ['process_resource']),
     ('select_process', 'dataflows.processors.select_fields', ['process_resource']),
@@ -462,6 +464,13 @@ def locate(tree, path):
         if name == '@body':
             # the statements of a compound statement's body, as one statement
             node = ast.If(test=ast.Constant(True), body=list(node.body), orelse=[])
+            continue
+        if name.startswith('@if:'):
+            ifs = [st for st in getattr(node, 'body', []) if isinstance(st, ast.If)]
+            k = int(name[4:])
+            if not ifs or not (-len(ifs) <= k < len(ifs)):
+                return None
+            node = ifs[k]
             continue
         if name.startswith('@for:'):
             fors = [st for st in getattr(node, 'body', []) if isinstance(st, ast.For)]
